@@ -174,6 +174,12 @@ class CGraph:
                 raise Exception(err_str)
             # print self
 
+        # the sweep has rolled back all in-place writes: re-apply them (in recording order)
+        # so that the forward values are intact for further reverse sweeps
+        for f in self.functionList:
+            if is_set(f.setitem):
+                f.__class__.pushforward(f.func, f.args, f.kwargs, Fout = f)
+
     def function(self, x_list):
         """ computes the function of a function y = f(x_list), where y is a scalar
         and x_list is a list or tuple of input arguments.
